@@ -34,7 +34,7 @@ func capOf(cache int) int {
 func Leaks() {
 	e := env.New()
 	pol := env.Policies[vx.Choice("policy", vx.Param("policies"))]
-	cache := vx.Choice("cache", vx.Param("caches"))
+	cache := env.CacheChoice()
 	f := e.Factory(e.Policy(pol, cache))
 	sess, _ := f.GetSession("p0")
 	var recs []*ae.DataRowRecord
@@ -54,7 +54,7 @@ func Leaks() {
 	}
 	after := func() {
 		known("C09.nocache_all_released_per_call", "C09.live_at_most_one_per_distinct_key", "C09.live_within_capacity")
-		if cache == env.CacheNone {
+		if env.NoCaching(cache) {
 			vx.Assert("C09.nocache_all_released_per_call", e.Secrets.Live() == 0)
 		} else {
 			rows := e.Store.Rows(env.IKID("p0")) + e.Store.Rows(env.SKID())
